@@ -4,7 +4,7 @@ from .. import build, harness
 
 ID = "C15"
 VARIANTS = ["san"]
-RULE = ("harness/h_rational.cc against libopensmt (ASan+UBSan): (a) exhaustive boundary enumeration: 378 values n/d with n from "
+RULE = ("harness/h_rational.cc against libopensmt (ASan+UBSan): (a) exhaustive boundary enumeration: 378 values n/d (quick tier: 4 of the 8 denominators, 240 values) with n from "
         "{0..3, 2^31-2..2^31+1, 2^32-2..2^32+1, 2^53+-1, 2^63+-1, 2^64+-1} and negations, d from {1,2,3,2^31-1,2^31,2^32-1,2^32,"
         "2^63-1,2^64+1}, all ordered pairs x 22 operations (exhaustive over this set); (b) rapidcheck register machine: "
         "sequences of up to 60 operations over 6 registers (binary and in-place + - * /, negate, inverse, copy/move/self-assign, "
@@ -19,11 +19,13 @@ KNOWN_EXCL = {"mod-word-mixed-sign": "mod-word-mixed-sign"}
 
 
 def custom_run(tier, seed):
+    os.environ["VERIF_TIER_RUN"] = tier
     harness.ensure(["h_rational"])
     known = {e["id"]: e for e in harness.known_excludes(ID)}
     excl = ",".join(k for k in known if k in KNOWN_EXCL)
     parts = 16
-    jobs = [dict(name="h_rational", args=["pairs", str(i), str(parts)], exclude=excl) for i in range(parts)]
+    jobs = [dict(name="h_rational", args=["pairs", str(i), str(parts)] + (["lite"] if tier == "quick" else []), exclude=excl)
+            for i in range(parts)]
     nrc = 16
     per = 400 if tier == "quick" else 20000
     for w in range(nrc):
